@@ -281,4 +281,41 @@ pub fn run(a: &Args, rep: &mut Report) {
     for d in 0..4 {
         rep.class(&format!("dpl|{}", d));
     }
+    // the safe constructor for addresses this process cannot own (kernel half, 57-bit canonical forms, arbitrary): the
+    // reference is formed from an integer and never dereferenced here; the crate does not read the TSS either. Should
+    // it ever do so, the resulting fault is a limitation of this sub-check (INCONCLUSIVE), not a finding - which is why
+    // it runs last, after everything above has been judged and recorded.
+    #[cfg(not(miri))]
+    {
+        crate::trapemu::install();
+        crate::util::fault_means_nothing();
+        let n = a.budget(200_000, 20_000_000);
+        for i in 0..n {
+            rep.eval();
+            let (x, c) = match i % 4 {
+                0 => (0xff00_0000_0000_0000u64 | (r.next() >> 8), "57-bit-upper"),
+                1 => (0x0080_0000_0000_0000u64 | (r.next() >> 9), "57-bit-lower"),
+                2 => (0xffff_8000_0000_0000u64 | (r.next() >> 17), "48-bit-upper"),
+                _ => gen::u64_edge(&mut r),
+            };
+            let p = (x & !3).max(4);
+            let st: &'static TaskStateSegment = unsafe { &*(p as *const TaskStateSegment) };
+            let d = Descriptor::tss_segment(st);
+            let u = unsafe { Descriptor::tss_segment_unchecked(p as *const TaskStateSegment) };
+            let ok = match d {
+                Descriptor::SystemSegment(lo, hi) => {
+                    let s = decode_sys(lo, hi);
+                    s == Sys { base: p, limit: 0x67, typ: 0b1001, s: false, dpl: 0, p: true, avl: false, l: false, db: false, g: false, high_reserved: 0 }
+                }
+                _ => false,
+            };
+            if !ok || format!("{:x?}", d) != format!("{:x?}", u) {
+                rep.violation("tss_segment|base-is-not-the-tss-address", J::obj(vec![("tss", J::hex(p)), ("address_class", J::s(c)), ("safe", J::s(format!("{:x?}", d))), ("unchecked", J::s(format!("{:x?}", u)))]));
+                break;
+            }
+            if i < 8 {
+                rep.class(&format!("tss-safe|unowned-address|{}", c));
+            }
+        }
+    }
 }
